@@ -159,4 +159,91 @@ theorem parseIndirectObject_spellsS (env : Env R) (hd : env.decrypt = none) (v :
   simp only [parseIndirectObject, hhead, Out.bind_ok, hv, he]
   cases env.allowMissingEndobj <;> simp <;> omega
 
+
+/-! ### without streams `Reads` is equality; `Serialisable` values are `Storable` values without streams -/
+
+mutual
+/-- no stream object anywhere in the value -/
+def noStreams : Prim R → Bool
+  | .stream _ _ => false
+  | .arr xs => noStreamsL xs
+  | .dict kvs => noStreamsE kvs
+  | _ => true
+def noStreamsL : List (Prim R) → Bool
+  | [] => true
+  | x :: xs => noStreams x && noStreamsL xs
+def noStreamsE : List (List UInt8 × Prim R) → Bool
+  | [] => true
+  | (_, v) :: rest => noStreams v && noStreamsE rest
+end
+
+open PdfSyntax (ReadsL ReadsE) in
+mutual
+theorem reads_eq_of_noStreams (env : Env R) (buf : Buf) (id : Nat × Nat) :
+    ∀ (v p : Prim R), Reads env buf id p v → noStreams v = true → p = v
+  | .stream info inner, p => fun _ h => by simp [noStreams] at h
+  | .arr xs, p => fun h hn => by
+      simp only [Reads] at h; obtain ⟨ps, rfl, hl⟩ := h
+      simp only [noStreams] at hn
+      rw [readsL_eq_of_noStreams env buf id xs ps hl hn]
+  | .dict kvs, p => fun h hn => by
+      simp only [Reads] at h; obtain ⟨ps, rfl, hl⟩ := h
+      simp only [noStreams] at hn
+      rw [readsE_eq_of_noStreams env buf id kvs ps hl hn]
+  | .null, p => fun h _ => by simpa [Reads] using h
+  | .int i, p => fun h _ => by simpa [Reads] using h
+  | .real r, p => fun h _ => by simpa [Reads] using h
+  | .bool b, p => fun h _ => by simpa [Reads] using h
+  | .str s, p => fun h _ => by simpa [Reads] using h
+  | .ref a b, p => fun h _ => by simpa [Reads] using h
+  | .name n, p => fun h _ => by simpa [Reads] using h
+theorem readsL_eq_of_noStreams (env : Env R) (buf : Buf) (id : Nat × Nat) :
+    ∀ (xs ps : List (Prim R)), ReadsL env buf id ps xs → noStreamsL xs = true → ps = xs
+  | [], ps => fun h _ => by simpa [ReadsL] using h
+  | x :: xs, ps => fun h hn => by
+      simp only [ReadsL] at h; obtain ⟨p, ps', rfl, hp, hl⟩ := h
+      simp only [noStreamsL, Bool.and_eq_true] at hn
+      rw [reads_eq_of_noStreams env buf id x p hp hn.1, readsL_eq_of_noStreams env buf id xs ps' hl hn.2]
+theorem readsE_eq_of_noStreams (env : Env R) (buf : Buf) (id : Nat × Nat) :
+    ∀ (kvs ps : List (List UInt8 × Prim R)), ReadsE env buf id ps kvs → noStreamsE kvs = true → ps = kvs
+  | [], ps => fun h _ => by simpa [ReadsE] using h
+  | (k, v) :: rest, ps => fun h hn => by
+      simp only [ReadsE] at h; obtain ⟨p, ps', rfl, hp, hl⟩ := h
+      simp only [noStreamsE, Bool.and_eq_true] at hn
+      rw [reads_eq_of_noStreams env buf id v p hp hn.1, readsE_eq_of_noStreams env buf id rest ps' hl hn.2]
+end
+
+mutual
+theorem storable_of_serialisable (fmt : R → List UInt8) (env : Env R) :
+    ∀ v : Prim R, Serialisable fmt env.parseReal v → Storable fmt env v ∧ noStreams v = true
+  | .stream info inner => fun h => by simp [Serialisable] at h
+  | .arr xs => fun h => by
+      simp only [Serialisable] at h; simpa [Storable, noStreams] using storableL_of_serialisable fmt env xs h
+  | .dict kvs => fun h => by
+      simp only [Serialisable] at h; simpa [Storable, noStreams] using storableE_of_serialisable fmt env kvs h
+  | .null => fun _ => by simp [Storable, noStreams]
+  | .int i => fun h => by simpa [Storable, Serialisable, noStreams] using h
+  | .real r => fun h => by simpa [Storable, Serialisable, noStreams] using h
+  | .bool b => fun _ => by simp [Storable, noStreams]
+  | .str s => fun _ => by simp [Storable, noStreams]
+  | .ref a b => fun h => by simpa [Storable, Serialisable, noStreams] using h
+  | .name n => fun _ => by simp [Storable, noStreams]
+theorem storableL_of_serialisable (fmt : R → List UInt8) (env : Env R) :
+    ∀ xs : List (Prim R), SerialisableL fmt env.parseReal xs → StorableL fmt env xs ∧ noStreamsL xs = true
+  | [] => fun _ => by simp [StorableL, noStreamsL]
+  | x :: xs => fun h => by
+      simp only [SerialisableL] at h
+      have h1 := storable_of_serialisable fmt env x h.1
+      have h2 := storableL_of_serialisable fmt env xs h.2
+      simp [StorableL, noStreamsL, h1.1, h1.2, h2.1, h2.2]
+theorem storableE_of_serialisable (fmt : R → List UInt8) (env : Env R) :
+    ∀ kvs : List (List UInt8 × Prim R), SerialisableE fmt env.parseReal kvs → StorableE fmt env kvs ∧ noStreamsE kvs = true
+  | [] => fun _ => by simp [StorableE, noStreamsE]
+  | (k, v) :: rest => fun h => by
+      simp only [SerialisableE] at h
+      have h1 := storable_of_serialisable fmt env v h.1
+      have h2 := storableE_of_serialisable fmt env rest h.2
+      simp [StorableE, noStreamsE, h1.1, h1.2, h2.1, h2.2]
+end
+
 end PdfLex
